@@ -5,7 +5,7 @@ Not decided: wrap-around at the top of the 32-bit address space; callbacks."""
 from .. import cast, sym, lin
 from ..sym import C, fmt, linearize as L
 from ..lin import Lin
-from .regs import Regs, T, strip_cast, size_facts
+from .regs import Regs, T, strip_cast, size_facts, scan_rule, for_headers
 from .c02 import walker, code_of, addr_of, ADDR, N, BUF, loop_const_invariant
 
 
@@ -316,6 +316,7 @@ def run(ck):
     ck.assumptions += ['table invariants established by register_init (C04)', 'rds_size of a real register is 1, 2 or 4 (C01.a)']
     R = Regs(ck)
     rule_a(ck, R)
+    scan_rule(R, 'C03.d', 'ra_find_area_by_addr', 'areas')
     rule_b(ck, R)
     rule_c(ck, R)
     rule_d(ck, R)
